@@ -87,7 +87,7 @@ def sval(x):
 
 def fs_hook(vfs: VFS):
     """hook fragment: pathlib.Path, os.path.*, os.walk on the virtual tree"""
-    PATH_METHODS = {"open", "absolute", "resolve", "relative_to", "joinpath", "is_file", "is_dir", "exists", "is_absolute", "read_text", "read_bytes",
+    PATH_METHODS = {"is_relative_to", "samefile", "open", "absolute", "resolve", "relative_to", "joinpath", "is_file", "is_dir", "exists", "is_absolute", "read_text", "read_bytes",
                     "as_posix", "__str__", "__fspath__", "with_suffix", "expanduser"}
     PATH_ATTRS = {"name", "suffix", "parent", "parents", "parts", "stem"}
 
@@ -131,6 +131,11 @@ def fs_hook(vfs: VFS):
             if (s.startswith("/") != o.startswith("/")) or not (s + "/").startswith(o.rstrip("/") + "/"):
                 raise PyRaise("ValueError", node)
             return PathV(s[len(o.rstrip("/")) + 1:])
+        if name == "is_relative_to":
+            o = sval(args[0])
+            return s == o or ((s.startswith("/") == o.startswith("/")) and (s + "/").startswith(o.rstrip("/") + "/"))
+        if name == "samefile":
+            return vfs.abs(s) == vfs.abs(sval(args[0]))
         if name == "joinpath":
             return PathV(posixpath.join(s, *[sval(a) for a in args]))
         if name == "is_file":
